@@ -267,7 +267,6 @@ func main() {
 	if pf := os.Getenv("C45_PPROF"); pf != "" {
 		f, _ := os.Create(pf)
 		pprof.StartCPUProfile(f)
-		defer pprof.StopCPUProfile()
 	}
 	joinHistory := func() map[string]any { return nil }
 	if os.Getenv("C45_NOWORK") == "" {
@@ -345,6 +344,7 @@ func main() {
 		again.Add(1)
 	})
 	r.OutcomeN("valid_encodings_decoded_a_second_time_in_reverse_order", again.Load())
+	encs = nil // keep the live heap of the remaining parts as small as before
 
 	// base strings for the mutation families
 	var bases []string
@@ -596,6 +596,7 @@ func main() {
 		"valid prefixes are non-empty lower-case strings over ASCII 33..126 (an upper-case prefix is lower-cased by the encoder)",
 		"'every string' is bounded: all strings of length <= 3, all single edits of ~2,300 valid strings, checksum neighbourhoods, all short symbol sequences",
 	}
+	pprof.StopCPUProfile()
 	r.Finish("9 prefixes x (all payloads of length <= 2 + patterns) round trip; every single substitution (47 replacement chars) / deletion / insertion / adjacent swap / case flip of every base string; all strings of length <= 3; all <=3(4)-position checksum changes of 2(4) base strings; bech32m sibling of every encoding; all 5-bit symbol sequences of length <= 3(4); address length/prefix matrix; thorough: all 32^6 checksums of one string (budget-capped); distinct = distinct valid encodings and base strings",
 		true, map[string]any{"bases": len(bases), "prefixes": len(prefixes), "payloads": len(payloads), "history_independence": histCov, "all_32^6_checksums_of_one_string": map[bool]string{true: map[bool]string{true: "completed", false: "budget-capped"}[fullDone], false: "not run in quick"}[r.Thorough()]})
 }
